@@ -132,6 +132,8 @@ def build(tier, seed):
     o8 = [o for o in o8 if o.kind != 'K5']
     for o in o8:
         o.id = 'C07.tables.' + o.id.split('.', 1)[1]
+        if getattr(o, 'stand_in', None):      # here the bounded histories on the real scope code are what runs the descents whole
+            o.stand_in = [x.id for x in obs if x.kind == 'K5']
     for k, w in (('names', 'overload sets keyed by name'), ('types', 'entries keyed by type')):
         o = Ob('C07.order.' + k, u, None, 'h_order_' + k, 'node_compare as resolved at the table of %s: three-way total order, zero exactly for the same node (three symbolic keys)' % w, kind='K3', replay='C07', timeout=600, flags=['--unwind', '12'], objbits=12)
         o.gen = mkgen('mixed'); obs.append(o)
